@@ -106,6 +106,10 @@ func (c *Collection) handleReplaceByName() (err error) {
 		if replacers > 1 {
 			return fmt.Errorf("a provider, %s, can have only one of the ReplaceName, InsertAfterName, InsertBeforeName annotations", fm)
 		}
+		if fm.origin != "" && (fm.replaceByName == fm.origin || fm.insertBeforeName == fm.origin || fm.insertAfterName == fm.origin) {
+			// moving a block relative to a target that contains the block ties the list in a knot
+			return fmt.Errorf("a provider, %s, cannot replace or be inserted before/after '%s' because that is its own name", fm, fm.origin)
+		}
 		n := &node{
 			i:    i,
 			fm:   fm,
@@ -197,9 +201,18 @@ func (c *Collection) handleReplaceByName() (err error) {
 			delete(names, name)
 			firstSnip, lastSnip := snip(firstLast.first, func(n *node) bool { return n.fm.origin == name })
 			firstMove, lastMove := snip(n, func(n *node) bool { return n.fm.replaceByName == name })
-			if lastSnip.next == firstMove {
-				// adjacent blocks, snip before move, hack a reconnect
-				lastSnip.next = lastMove.next
+			// The moved block goes where the target was: before the node that followed the
+			// target.  If that node is itself part of the moved block (the blocks were adjacent,
+			// or the target sat in the middle of what became the moved block), use the node that
+			// follows the moved block instead.
+			for m := firstMove; ; m = m.next {
+				if m == lastSnip.next {
+					lastSnip.next = lastMove.next
+					break
+				}
+				if m == lastMove {
+					break
+				}
 			}
 
 			if firstSnip == lastSnip {
